@@ -1,7 +1,7 @@
 SPECIFICATION Spec
 CONSTANTS
-  MaxNS = 7
-  MaxND = 4
+  MaxNS = 8
+  MaxND = 5
   MaxList = 2
   Ks = {1, 2, 3, 4}
   Variant = "fixed"
